@@ -11,10 +11,11 @@ CONSTANTS
  MaxEdits = 1
  MaxEvents = 1
  MaxFaults = 0
+ MaxTicks = 0
  Export = TRUE
  RunToBlock = TRUE
  Mut = "none"
 SPECIFICATION Spec
-INVARIANTS InvPausedQuiet InvFlushFresh InvPauseSurvives InvTerminatedGone InvReset InvC11 InvNeverPropagated InvLoopShape ExportBehaviour
+INVARIANTS InvPausedQuiet InvFlushFresh InvPauseSurvives InvTerminatedGone InvReset InvC11 InvNeverPropagated InvLoopShape InvStatusMachine ExportBehaviour
 VIEW View
 CHECK_DEADLOCK FALSE
